@@ -161,6 +161,10 @@ class Op:
 
 def generate(plan) -> None:
     sc = plan.d["scenario"]
+    if sc == "twins":
+        from . import qos_twins
+
+        return qos_twins.generate(plan)
     r = plan.rng("gen")
     k = plan.d["knobs"]
     k["fw"] = r.choice(["evofw3", "evofw3", "evofw3", "hgi80"])
@@ -745,6 +749,10 @@ def oracle_c07(sim: QosSim) -> None:
 
 
 async def run(ctx) -> None:
+    if ctx.plan.d["scenario"] == "twins":
+        from . import qos_twins
+
+        return await qos_twins.run(ctx)
     sim = QosSim(ctx)
     await sim.run()
     sc = ctx.plan.d["scenario"]
